@@ -797,7 +797,19 @@ func (g *Gen) findTraced() {
 
 // externTraceTypes resolves the signature of a traced external function "pkg.Name".
 func (g *Gen) externTraceTypes() {
-	for name := range g.traced {
+	sigTypes := func(sig *types.Signature, recv types.Type) (ts, rs []types.Type) {
+		if recv != nil {
+			ts = append(ts, recv)
+		}
+		for k := 0; k < sig.Params().Len(); k++ {
+			ts = append(ts, sig.Params().At(k).Type())
+		}
+		for k := 0; k < sig.Results().Len(); k++ {
+			rs = append(rs, sig.Results().At(k).Type())
+		}
+		return
+	}
+	for _, name := range sortedKeys(g.traced) {
 		i := strings.Index(name, ".")
 		if i <= 0 || strings.HasPrefix(name, "(") {
 			continue
@@ -805,22 +817,41 @@ func (g *Gen) externTraceTypes() {
 		if _, ok := g.tracedArgTypes[name]; ok {
 			continue
 		}
+		rest := name[i+1:]
 		for _, path := range sortedKeys(g.allTypes) {
 			p := g.allTypes[path]
 			if p.Name() != name[:i] {
 				continue
 			}
-			if f, ok := p.Scope().Lookup(name[i+1:]).(*types.Func); ok {
-				sig := f.Type().(*types.Signature)
-				var ts, rs []types.Type
-				for k := 0; k < sig.Params().Len(); k++ {
-					ts = append(ts, sig.Params().At(k).Type())
+			if g.inModule(p.Path()) {
+				g.bindErrors = append(g.bindErrors, "call trace: "+name+" is a function of this module; calls to it are recorded under its bare name ("+rest+")")
+				g.tracedArgTypes[name] = nil
+				break
+			}
+			if strings.HasPrefix(rest, "(") {
+				// pkg.(*T).M or pkg.(T).M
+				j := strings.Index(rest, ").")
+				if j < 0 {
+					continue
 				}
-				for k := 0; k < sig.Results().Len(); k++ {
-					rs = append(rs, sig.Results().At(k).Type())
+				tn := strings.TrimPrefix(rest[1:j], "*")
+				obj, ok := p.Scope().Lookup(tn).(*types.TypeName)
+				if !ok {
+					continue
 				}
-				g.tracedArgTypes[name] = ts
-				g.tracedResTypes[name] = rs
+				var recv types.Type = obj.Type()
+				if strings.HasPrefix(rest[1:j], "*") {
+					recv = types.NewPointer(recv)
+				}
+				m, _, _ := types.LookupFieldOrMethod(recv, true, p, rest[j+2:])
+				if f, ok := m.(*types.Func); ok {
+					g.tracedArgTypes[name], g.tracedResTypes[name] = sigTypes(f.Type().(*types.Signature), recv)
+					break
+				}
+				continue
+			}
+			if f, ok := p.Scope().Lookup(rest).(*types.Func); ok {
+				g.tracedArgTypes[name], g.tracedResTypes[name] = sigTypes(f.Type().(*types.Signature), nil)
 				break
 			}
 		}
@@ -911,7 +942,27 @@ func (g *Gen) observeOf(name, obs string) (*Observe, *types.Package) {
 	for _, k := range sortedKeys(g.cs.ByKey) {
 		ct := g.cs.ByKey[k]
 		f := strings.Fields(k)
-		if len(f) < 3 || f[0] != "func" || strings.Join(f[2:], " ") != name {
+		if len(f) < 2 || len(ct.Observes) == 0 {
+			continue
+		}
+		switch f[0] {
+		case "func":
+			if len(f) < 3 || strings.Join(f[2:], " ") != name {
+				continue
+			}
+		case "extern":
+			// key: extern <pkgpath>.<Name> ; calls are recorded under <pkgname>.<Name>
+			full := strings.Join(f[1:], " ")
+			match := false
+			for _, path := range sortedKeys(g.allTypes) {
+				if strings.HasPrefix(full, path+".") && g.allTypes[path].Name()+"."+full[len(path)+1:] == name {
+					match = true
+				}
+			}
+			if !match {
+				continue
+			}
+		default:
 			continue
 		}
 		for _, ob := range ct.Observes {
